@@ -60,10 +60,21 @@ def run(tier: str, seed: int) -> dict:
         lines += r.lines
         states += r.distinct
         trans += r.generated
+    # theorems about the oracle itself (spec/AlgebraLaws.tla): Denote is invariant under commuting, re-bracketing,
+    # distributing and renaming, and a non-zero value has structural support
+    LAWS = ["Commutes", "Associates", "SubtractRules", "Distributes", "RenamesIndex", "RenamesTensor", "ValueNeedsSupport"]
+    cfg.write_text("SPECIFICATION Spec\nCONSTANTS\n  MaxLeaves = 3\n" + "".join(f"INVARIANT {x}\n" for x in LAWS) + "CHECK_DEADLOCK FALSE\n")
+    r = run_tlc("AlgebraLaws", str(cfg), timeout=1800)
+    if r.violated or not r.ok:
+        raise MachineryError(f"AlgebraLaws.tla: the oracle violates {r.violated} (specification error)")
+    law_states = r.distinct
+    states += r.distinct
+    trans += r.generated
     import shutil
 
     shutil.rmtree(d, ignore_errors=True)
-    seen, vio, compared, nondist = set(), [], 0, 0
+    seen, vio, compared, nondist, raised = set(), [], 0, 0, 0
+    deviating = []
     for l in lines:
         if l["text"] in seen:
             continue
@@ -73,12 +84,40 @@ def run(tier: str, seed: int) -> dict:
             nondist += 1
         try:
             got = real_tree(l["text"])
-        except Exception as e:  # noqa: BLE001
-            vio.append({"what": f"desugar_assignment raised {type(e).__name__} on {l['text']}", "key": {"clause": "desugar-raised", "text": l["text"]},
-                        "check": "desugar", "case": l})
+        except Exception:  # noqa: BLE001 - no kernel is produced: nothing for C01 to judge (totality is C08's)
+            raised += 1
             continue
         if got != norm(l["desugared"]):
-            vio.append({"what": f"contraction placement of {l['text']} deviates from spec/Desugar.tla: real {got}, specified {norm(l['desugared'])}"[:600],
-                        "key": {"clause": "desugar-deviates-from-specification", "text": l["text"], "shape": "" if l["distributable"] else "product-of-partial-sums"},
-                        "check": "desugar", "case": l})
-    return {"violations": vio, "states": states, "transitions": trans, "compared": compared, "not_distributable": nondist}
+            deviating.append((l, got))
+    # A deviating tree is not thereby wrong: it is judged by what it computes (spec/DesugarTrace.tla).
+    alternative = 0
+    if deviating:
+        from . import exprs
+        from .common import dump
+
+        d = workdir("desugartrace")
+        trees = []
+        for l, got in deviating:
+            asg = exprs.parse(l["text"])
+            trees.append({"text": l["text"], "tidx": list(asg["tidx"]), "rhs": exprs.strip(asg["rhs"]), "tree": got})
+        dump(trees, d / "trees.json")
+        cfg = d / "DesugarTrace.cfg"
+        cfg.write_text("SPECIFICATION TSpec\nCONSTANTS\n  MaxLeaves = 1\nINVARIANT Judge\nCHECK_DEADLOCK FALSE\n")
+        r = run_tlc("DesugarTrace", str(cfg), env={"VF_TREES": d / "trees.json"}, timeout=1800)
+        states += r.distinct
+        trans += r.generated
+        shutil.rmtree(d, ignore_errors=True)
+        verdict = {x["n"]: x["verdict"] for x in r.lines}
+        if len(verdict) != len(trees):
+            raise MachineryError(f"DesugarTrace: {len(verdict)} verdicts for {len(trees)} deviating trees")
+        for i, (l, got) in enumerate(deviating, 1):
+            if verdict[i] == "alternative-correct":
+                alternative += 1
+                continue
+            vio.append({"what": f"the contraction placement of {l['text']} does not compute its meaning ({verdict[i]}): real tree {got}"[:600],
+                        "key": {"clause": "desugared-tree-" + verdict[i], "text": l["text"],
+                                "shape": "" if l["distributable"] else "product-of-partial-sums"},
+                        "check": "desugar", "case": {**l, "real": got}})
+    return {"violations": vio, "states": states, "transitions": trans, "compared": compared, "not_distributable": nondist,
+            "deviating": len(deviating), "alternative_correct": alternative, "raised": raised,
+            "law_states": law_states, "laws": LAWS}
